@@ -20,7 +20,7 @@ from hypothesis import strategies as st
 from vf import prog, sem
 
 PROP = "C07"
-CASES = {"quick": 10000, "thorough": 300000}
+CASES = {"quick": 10000, "thorough": 1500000}
 RULE = ("2-4 leaf functions (reuse_gradient True/False), 1-3 composites (weights incl. 0 and cancelling pairs, nested / scaled "
         "sums), 2-5 points incl. combinations and equal-decomposition twins, 1-12 operations.  Non-trivial = a composite was "
         "evaluated after some but not all of its terms, or has a zero / cancelling weight, or mixes differentiable and "
